@@ -31,7 +31,7 @@ CHECKS = {
          "Generated programs are compiled by the thriftgo under test, linked with a generic reflective driver and exercised with generated values: bytes of generated Write must decode under the strict reference decoder to the value; reference encodings must Read back to the value (reflection dump by thrift tags); unknown fields, retagged fields, missing required fields and ill-formed unions must behave as the property states.",
          "Trusted: the reference codec (written from the Thrift binary protocol specification, shares no code with thriftgo/apache/gopkg), apache thrift v0.13.0's TBinaryProtocol/TMemoryBuffer as the transport under the generated code."),
  "C15": ("property-based testing (rapid): descriptor content expected from the generating model vs thrift_reflection.GetFileDescriptor, lookup agreement across includes, Marshal/Unmarshal round trip",
-         "Generated multi-file programs go through the real front end; the file descriptors built by thrift_reflection are compared field by field with content computed from the model alone (names, ids, requiredness, type expressions, defaults, enum numbers, annotations with all values, comments, base service, oneway, includes, namespaces); lookups by name and id across included files must reach the model's definition; encode/decode of a descriptor is the identity. In-process half only: descriptors embedded in generated Go packages are not yet driven.",
+         "Generated multi-file programs go through the real front end; the file descriptors built by thrift_reflection are compared field by field with content computed from the model alone (names, ids, requiredness, type expressions, defaults, enum numbers, annotations with all values, comments, base service, oneway, includes, namespaces); lookups by name and id across included files must reach the model's definition; encode/decode of a descriptor is the identity. The generated half compiles programs with with_reflection and checks the embedded descriptors, Go type <-> descriptor identity and cross-package lookups through the run-time registry.",
          "Trusted: the model-side expectation builder (written from descriptor.thrift's documented field meanings)."),
  "C01": ("property-based testing (rapid): generated multi-file IDL programs x generated option configurations through the thriftgo binary; oracle = the compiler's own front end (go/parser + go/types over all generated packages and the pinned runtime libraries)",
          "Generated programs and configurations are compiled by the thriftgo binary built from the working tree; whenever it exits 0 every written file must parse and the complete set of generated packages must type-check together in process (duplicate declarations, missing/unused imports, unresolved cross-package references are go/types errors).",
@@ -63,6 +63,9 @@ CHECKS = {
  "C08": ("stateful property-based testing (rapid): generated call sequences through generated client -> in-memory transport -> generated processor with a synthesised recording handler; wire messages judged by an independent codec",
          "Generated services are compiled with a handler synthesised from the generated interface; sequences of calls with scripted outcomes (value, declared exception, undeclared error, unknown method, oneway) must deliver equal arguments and results, map errors to the right exception kinds, dispatch inherited methods, and put <IDL name, type, seqid> + args/result structs with the IDL ids on the wire.",
          "Trusted: apache thrift v0.13.0 TStandardClient/TBinaryProtocol as the transport machinery around the generated code; the reference codec."),
+ "C09": ("property-based testing (rapid): byte-exact round trip of arbitrary unknown fields through the unknown-fields runtime; model-derived (old, new) schema pairs compiled into separate drivers with values travelling along read/write chains, judged by the independent codec under the new schema",
+         "Old schemas are derived from generated new ones by removing compatible additions; values of new must be readable by old (common fields intact) and by new from old data (defaults); with keep_unknown_fields the re-written bytes must decode under the new schema to the original value, and CarryingUnknownFields must be exact.",
+         "Trusted: the reference codec; the model-level derivation of old from new."),
 }
 NOT_YET = "check not built yet (work in progress; the technique applies, see DESIGN.md)"
 
